@@ -196,6 +196,10 @@ def run(ck):
         for suf in (b'', b'k', b'K', b'm', b'M'):
             for n in nums:
                 numfiles.append((opt, suf, n, b'[snoopy]\n' + opt + b' = %d' % n + suf + b'\n'))
+            # the same number written with leading zeros (digits are digits): few, many, more than any fixed digit buffer holds
+            for n in (1, 256, 300, 1023, 4000, 1048575):
+                for z in (1, 5, 15, 16, 17, 18, 19, 40):
+                    numfiles.append((opt, suf + b'/zeros%d' % z, n, b'[snoopy]\n' + opt + b' = ' + b'0' * z + b'%d' % n + suf + b'\n'))
     allc = [c for _, c in files] + [c for _, _, _, c in numfiles]
     nchunk = 32
     size = (len(allc) + nchunk - 1) // nchunk
@@ -239,16 +243,18 @@ def run(ck):
             continue
         exp, loose = refini.parse(content, outs)
         if g.get(opt) != exp[opt]:
-            ck.violation('C08:number:%s:%d%s' % (opt.decode(), n, suf.decode()), {'file': content.decode(), 'got': g.get(opt, b'?').decode(), 'want': exp[opt].decode()})
-        if n > 0:
-            series.setdefault((opt, suf), []).append((n, int(g.get(opt, b'0'))))
+            ck.violation('C08:number:%s:%s%d%s' % (opt.decode(), ('0' * int(suf.split(b'/zeros')[1])) if b'/zeros' in suf else '', n, suf.split(b'/')[0].decode()), {'file': content.decode(), 'got': g.get(opt, b'?').decode(), 'want': exp[opt].decode()})
+        if b'/zeros' in suf:
+            continue
+        series.setdefault((opt, suf), []).append((n, int(g.get(opt, b'0'))))      # 0 included: "never decreasing as the number grows" starts at the smallest number
         outcomes.add((opt, g.get(opt)))
     for (opt, suf), pts in series.items():
         pts.sort()
+        shown = 0
         for (n1, v1), (n2, v2) in zip(pts, pts[1:]):
-            if v2 < v1:
+            if v2 < v1 and shown < 3:
+                shown += 1
                 ck.violation('C08:not_monotone:%s:%d%s->%d%s' % (opt.decode(), n1, suf.decode(), n2, suf.decode()), {'option': opt.decode(), 'n1': n1, 'v1': v1, 'n2': n2, 'v2': v2})
-                break
     # another build: error logging ON by default (./configure --enable-error-logging) - an unparsable value keeps THAT default
     ve = H.build_exec_harness('c08-errlogon-asan', cfg_def=['SNOOPY_CONF_ERROR_LOGGING_ENABLED 1'])
     h_conf_e = build.link_harness(ve, os.path.join(ve['dir'], 'h_conf'), [os.path.join(NATIVE, 'h_conf.c'), os.path.join(NATIVE, 'seam.c'), os.path.join(NATIVE, 'nonreentrant.c')])
@@ -306,6 +312,28 @@ def run(ck):
     evals += n_state
     # round trip through the REAL CLI: what `snoopyctl conf` prints for the file, written back into a config file, yields the same setting
     vsets = list(distinct_valuesets)
+    # ---- the example lines of the shipped documentation (etc/snoopy.ini.in, "; - option = value   # explanation"), pasted into a file as they stand:
+    # the option must take the value the example shows (what stands in front of the explanation, quotes stripped)
+    doc = open(os.path.join(v['repo'], 'etc/snoopy.ini.in'), 'rb').read()
+    examples = re.findall(rb'^;\s+-\s+([a-z_]+\s*=\s*\S.*?)\s*$', doc, re.M)
+    ex_cases = []
+    for e in examples:
+        m = re.match(rb'^([a-z_]+)\s*=\s*(.*?)(?:\s+[#;]\s.*)?$', e)
+        if not m or m.group(1) not in refini.ORDER:
+            continue
+        val = m.group(2).strip()
+        if len(val) >= 2 and val[:1] == val[-1:] == b'"':
+            val = val[1:-1]
+        ex_cases.append((m.group(1), val, b'[snoopy]\n' + e + b'\n'))
+    res, aborts = run_resilient(h_conf, os.path.join(ck.workdir, 'docex'), [c for _, _, c in ex_cases])
+    for (opt, val, content), g in zip(ex_cases, res):
+        evals += 1
+        if g is None:
+            ck.violation('C08:abort:documented_example:%s' % content.decode('latin-1')[9:80], {'file': content.decode('latin-1')})
+            continue
+        outcomes.add(('docex', opt, g.get(opt)))
+        if g.get(opt) != val:
+            ck.violation('C08:documented_example_line_gives_another_value:%s' % content.decode('latin-1')[9:70].strip(), {'file': content.decode('latin-1'), 'option': opt.decode(), 'got': g.get(opt, b'?').decode('latin-1'), 'documented': val.decode('latin-1')})
     n_rt, n_cli = cli_roundtrip(ck, h_conf, vsets, distinct_valuesets, outs)
     ck.assumptions += ['reference parser engine/refini.py is the oracle; options it marks loose (continuation lines, garbage after digits, invalid after valid) are not compared: %d' % n_loose]
     ck.coverage(states=len(outcomes), transitions=evals + n_rt + n_cli, traces_validated_against_impl=evals + n_rt + n_cli, evaluations=evals + n_rt + n_cli, distinct_nontrivial=len(outcomes),
